@@ -55,8 +55,21 @@ func c06Forward(c *Ctx) {
 	n := resultOf(read, 0)
 	rerr := resultOf(read, 1)
 	buf := read.Call.Args[0]
+	// the read may fill a window buf[K:] of a larger buffer that has room for the fields in front of
+	// the payload (positional assembly)
+	var posBase ssa.Value
+	posK := int64(0)
+	if sl, ok := strip(buf).(*ssa.Slice); ok && sl.High == nil && sl.Low != nil {
+		if kk, ok := constInt(sl.Low); ok && kk > 0 {
+			posBase, posK = sl.X, kk
+		}
+	}
 	// a. constant buffer size fitting 16 bits
 	k, okK := fixedLen(buf)
+	if posBase != nil {
+		k, okK = fixedLen(posBase)
+		k -= posK
+	}
 	c.Check(okK && k > 0 && k <= 0xFFFF, rule, "forward buffer", read.Pos(), fmt.Sprintf("read buffer has constant length %d <= 65535 (uint16(n) cannot truncate; DATA packet <= %d bytes)", k, k+10), fmt.Sprintf("the read buffer's length (%d, constant=%v) does not fit the 16-bit payload length: a full read is announced with a truncated length", k, okK))
 	// c/d/e. the packet handed to Tunnel.Write is createPacket(PKT_TYPE_DATA, uint16(count) ++ payload).
 	// The chunk buf[:n] may travel through helpers (forward -> tunnel.writeData(chunk) ->
@@ -265,7 +278,12 @@ func c06Forward(c *Ctx) {
 		return false
 	}
 	var res asmResult
-	found := findSend(fn, isBufN, func(v ssa.Value) bool { return v == n }, func(v ssa.Value) bool { return strip(v) == ssa.Value(tunP) }, 0, &res)
+	if posBase != nil {
+		c06ForwardPositional(c, fn, read, posBase, posK, tunP, dataT, func(prefixOK, payOK, pktOK bool, tw *ssa.Call) {
+			res.prefixOK, res.payOK, res.pktOK, res.fresh, res.tw, res.where = prefixOK, payOK, pktOK, true, tw, tw
+		})
+	}
+	found := res.where != nil || findSend(fn, isBufN, func(v ssa.Value) bool { return v == n }, func(v ssa.Value) bool { return strip(v) == ssa.Value(tunP) }, 0, &res)
 	if !found || res.where == nil {
 		c.Bad(rule, "forward assembly", fn.Pos(), "length prefix / payload write / Bytes / tunnel.Write not all present")
 		return
@@ -421,4 +439,95 @@ func inCycleWithin(g *ssa.Go) bool {
 		}
 	}
 	return false
+}
+
+// c06ForwardPositional: the relay loop reads the host's bytes into base[K:] and lays the fields in
+// front of them out in base itself. Two shapes: K == 2, the body base[:2+n] handed to
+// createPacket(PKT_TYPE_DATA, ...); K == 10, the whole packet base[:10+n] handed to Tunnel.Write
+// (type, reserved, size, payload length written in place). The buffer is reused for the next read,
+// which is sound only because Tunnel.Write hands the bytes to the transport before it returns.
+func c06ForwardPositional(c *Ctx, fn *ssa.Function, read *ssa.Call, base ssa.Value, K int64, tunP *ssa.Parameter, dataT int64, set func(prefixOK, payOK, pktOK bool, tw *ssa.Call)) {
+	n := resultOf(read, 0)
+	isKplusN := func(v ssa.Value) bool {
+		bo, ok := strip(v).(*ssa.BinOp)
+		if !ok || bo.Op != token.ADD {
+			return false
+		}
+		if kk, ok := constInt(bo.X); ok && kk == K && bo.Y == n {
+			return true
+		}
+		if kk, ok := constInt(bo.Y); ok && kk == K && bo.X == n {
+			return true
+		}
+		return false
+	}
+	convOf := func(v ssa.Value, kind types.BasicKind, inner func(ssa.Value) bool) bool {
+		cv, ok := v.(*ssa.Convert)
+		if !ok || !inner(cv.X) {
+			return false
+		}
+		bt, ok := cv.Type().Underlying().(*types.Basic)
+		return ok && bt.Kind() == kind
+	}
+	isN := func(v ssa.Value) bool { return v == n }
+	ws, exact := posWrites(base)
+	if !exact {
+		return
+	}
+	for _, ci := range callsTo(fn, "(*"+protoPkg+".Tunnel).Write") {
+		tw := ci.(*ssa.Call)
+		if strip(recvOf(tw)) != ssa.Value(tunP) {
+			continue
+		}
+		inIter := func(at ssa.Instruction) bool { return dominatesInstr(read, at) && dominatesInstr(at, tw) }
+		before := func(at ssa.Instruction) bool { return dominatesInstr(at, tw) }
+		// the window that is sent: base[:K+n]
+		sentOK := func(v ssa.Value) bool {
+			sl, ok := strip(v).(*ssa.Slice)
+			return ok && sl.X == base && sl.Low == nil && sl.Max == nil && sl.High != nil && isKplusN(sl.High)
+		}
+		field := func(off int64, width int) *posWrite {
+			var hit *posWrite
+			cnt := 0
+			for i := range ws {
+				if ws[i].off == off {
+					cnt++
+					hit = &ws[i]
+				}
+			}
+			if cnt != 1 || hit.width != width {
+				return nil
+			}
+			return hit
+		}
+		rd := field(K, -1)
+		payOK := rd != nil && rd.kind == "read" && rd.at == ssa.Instruction(read)
+		a := strip(arg(tw, 0))
+		if pk, ok := a.(*ssa.Call); ok && calleeName(pk) == protoPkg+".createPacket" && K == 2 {
+			t, _ := constInt(arg(pk, 0))
+			cb := field(0, 2)
+			prefixOK := cb != nil && cb.kind == "put" && convOf(cb.val, types.Uint16, isN) && inIter(cb.at) && len(ws) == 2
+			set(prefixOK, payOK && sentOK(arg(pk, 1)), t == dataT, tw)
+			return
+		}
+		if K == 10 && sentOK(a) {
+			ty, rs, sz, cb := field(0, 2), field(2, 2), field(4, 4), field(8, 2)
+			pktOK := len(ws) == 5 && ty != nil && rs != nil && sz != nil
+			if pktOK {
+				tv, okT := constInt(ty.val)
+				rv0, okR := constInt(rs.val)
+				pktOK = okT && tv == dataT && okR && rv0 == 0 && before(ty.at) && before(rs.at) &&
+					convOf(sz.val, types.Uint32, isKplusN) && inIter(sz.at)
+			}
+			if pktOK {
+				// the buffer is overwritten by the next read: the write must be complete when Write returns
+				if ok, _ := c.alwaysWrites(c.Fn("cmd/rdpgw/protocol", "Tunnel.Write"), 1, 0); !ok {
+					pktOK = false
+				}
+			}
+			prefixOK := cb != nil && cb.kind == "put" && convOf(cb.val, types.Uint16, isN) && inIter(cb.at)
+			set(prefixOK, payOK, pktOK, tw)
+			return
+		}
+	}
 }
